@@ -55,6 +55,14 @@ def cases(shard, tier):
         for dt in ("int8", "uint8", "int16", "int32"):
             hi = int(np.iinfo(dt).max)
             if L - 1 > hi:
+                # the array is longer than the index type can count: the positions the type CAN express are still valid indices
+                pos = [0, 27, 28, hi, 1]
+                if np.dtype(dt).kind == "i":
+                    pos += [-1, -28, int(np.iinfo(dt).min)] if -L <= int(np.iinfo(dt).min) else [-1, -28]
+                yield [t, ["arrdt", pos, dt]]
+                yield [t, ["arrdt", [5, 7], dt]]
+                for i in pos:
+                    yield [t, ["intdt", i, dt]]
                 continue
             pos = [0, 27, 28, L // 2, L - 1, L - 100, 1]
             if np.dtype(dt).kind == "i" and -L >= int(np.iinfo(dt).min):
